@@ -512,14 +512,17 @@ def ctxfn():
     return "CTXFN"
 
 
-def make_env(cfg, rec):
+LIB_SOURCE = "C17LIBBODY{% macro lm() %}L{% endmacro %}{% set lv = 1 %}"
+
+
+def make_env(cfg, rec, cache_size=0):
     import jinja2
     from jinja2.sandbox import SandboxedEnvironment
 
     asy, undef, esc = CONFIGS[cfg]
     env = SandboxedEnvironment(
         enable_async=asy, undefined=getattr(jinja2, undef), autoescape=esc, finalize=rec.finalize,
-        loader=jinja2.DictLoader({"lib": "{% macro lm() %}L{% endmacro %}{% set lv = 1 %}"}), cache_size=0,
+        loader=jinja2.DictLoader({"lib": LIB_SOURCE}), cache_size=cache_size,
     )
     env.filters["c17see"] = rec.see
     env.filters["c17cap"] = rec.cap
@@ -554,12 +557,14 @@ def forbidden_values(objs, A):
     return Fs
 
 
-def is_forbidden_pred(Fs):
+def is_forbidden_pred(Fs, fresh=None):
+    fresh = fresh or FRESH
+
     def pred(v):
         for F in Fs:
             if v is F:
                 return True
-            if type(v) is type(F) and isinstance(F, FRESH):
+            if type(v) is type(F) and isinstance(F, fresh):
                 try:
                     if v == F:
                         return True
@@ -593,11 +598,11 @@ def outcome_class(res):
     return ("exc", cls)
 
 
-def run_once(cfg, src, data, compiled=None):
+def run_once(cfg, src, data, compiled=None, cache_size=0):
     """Fresh environment + recorder; `compiled` (from sbx.compile_src under the
     same configuration) only saves recompiling the same source."""
     rec = Rec()
-    env = make_env(cfg, rec)
+    env = make_env(cfg, rec, cache_size)
     del TOUCHED[:]
     if compiled is None:
         compiled = sbx.compile_src(env, src)
@@ -793,6 +798,93 @@ def rt_shard(arg):
     return p
 
 
+# ------------------------------------------------------------------ {% from ... import name %}
+
+#: the module object of an imported template is a python object like any other: its private and dunder
+#: attributes must not be importable by name (the compiler turns a from-import into a bare getattr)
+FROM_NAMES = NAMES + ["_body_stream", "__getattribute__", "__name__", "__module__", "__html__", "__str__", "__repr__",
+                      "__weakref__", "__doc__", "_private_macro", "_TemplateModule__x", "__reduce__", "__setattr__"]
+FROM_FORMS = [
+    ("plain", lambda A: '{%% from "lib" import %s %%}' % A + obs(A)),
+    ("alias", lambda A: '{%% from "lib" import %s as v %%}' % A + obs("v")),
+    ("alias-with-context", lambda A: '{%% from "lib" import %s as v with context %%}' % A + obs("v")),
+    ("alias-without-context", lambda A: '{%% from "lib" import %s as v without context %%}' % A + obs("v")),
+    ("plain-with-context", lambda A: '{%% from "lib" import %s with context %%}' % A + obs(A)),
+    ("second-of-two", lambda A: '{%% from "lib" import lm, %s as v %%}' % A + obs("v")),
+    ("first-of-two", lambda A: '{%% from "lib" import %s as v, lm %%}' % A + obs("v")),
+    ("dynamic-template", lambda A: "{%% from libname import %s as v %%}" % A + obs("v")),
+    ("in-macro", lambda A: '{%% macro m() %%}{%% from "lib" import %s as v %%}%s{%% endmacro %%}{{ m() }}' % (A, obs("v"))),
+    ("in-block", lambda A: '{%% block b %%}{%% from "lib" import %s as v %%}%s{%% endblock %%}' % (A, obs("v"))),
+    ("in-for", lambda A: '{%% for i in [1] %%}{%% from "lib" import %s as v %%}%s{%% endfor %%}' % (A, obs("v"))),
+    ("called", lambda A: '{%% from "lib" import %s as v %%}{{ v() }}' % A),
+    ("attr-of", lambda A: '{%% from "lib" import %s as v %%}%s' % (A, obs("v.name"))),
+]
+FROM_CAPTURE = '{% import "lib" as c17lib %}{{ c17lib|c17cap }}'
+ALLOWED_FROM_EXC = ("TemplateAssertionError", "TemplateSyntaxError", "SecurityError", "UndefinedError")
+
+
+def from_case(cfg, fid, A, compiled=None):
+    src = FROM_CAPTURE + dict(FROM_FORMS)[fid](A)
+    res, rec, touched, env = run_once(cfg, src, {"libname": "lib"}, compiled, cache_size=50)
+    return src, res, rec, touched
+
+
+def from_shard(arg):
+    cfg, form_ids = arg
+    core.import_all_jinja()
+    warnings.simplefilter("ignore", RuntimeWarning)
+    from jinja2.runtime import Macro
+
+    p = core.Part()
+    asy = CONFIGS[cfg][0]
+    fresh = FRESH + (list,)
+    for fid in form_ids:
+        # liveness: the form imports a public macro
+        src, res, rec, touched = from_case(cfg, fid, "lm")
+        if not (sbx.deep_find(rec.values, lambda v: isinstance(v, Macro)) or (res[0] == "ok" and ("L" in res[1] or "lm" in res[1]))):
+            raise core.HarnessError(f"from-import form {fid} [{cfg}] never delivers the public macro: {src!r} -> {res!r}")
+        ctl = from_case(cfg, fid, MISSING_NAME)[1]
+        for A in FROM_NAMES:
+            p.evals += 1
+            src = FROM_CAPTURE + dict(FROM_FORMS)[fid](A)
+            comp = compile_cfg(cfg, src)
+            check_struct(p, asy, src, comp, "from-" + fid)
+            _, res, rec, touched = from_case(cfg, fid, A, comp)
+            Fs = forbidden_values(rec.captured, A)
+            if res[0] == "exc" and res[1] in ("TemplateAssertionError", "TemplateSyntaxError"):
+                # rejected while compiling: take the forbidden values from a module loaded separately
+                _, _, rec0, _ = from_case(cfg, "plain", "lm")
+                Fs = forbidden_values(rec0.captured, A)
+            bad = None
+            if sbx.deep_find(rec.values, is_forbidden_pred(Fs, fresh)):
+                bad = ("leak-identity", "a private attribute of the template module reached finalize/filter/test")
+            elif res[0] == "ok" and any(nd in norm(res[1]) and nd not in (norm(ctl[1]) if ctl[0] == "ok" else "")
+                                        for nd in needles(Fs)):
+                bad = ("leak-str", "str() of a private attribute of the template module in the output")
+            elif res[0] == "exc" and res[1] not in ALLOWED_FROM_EXC:
+                bad = ("exc", f"raised {res[1]}: {res[2]}")
+            elif A.startswith("_") and res[0] == "ok" and outcome_class(res) != outcome_class(ctl):
+                bad = ("differs", f"outcome {outcome_class(res)!r} != outcome for a name the module does not have "
+                                  f"{outcome_class(ctl)!r}")
+            if bad:
+                p.violation(f"C17/{bad[0]}/from-import-{fid}", {
+                    "msg": f"[{cfg}] from-import of {A!r} ({fid}): {bad[1]}; template {src!r} -> {res!r}",
+                    "config": cfg, "route": "from-import-" + fid, "name": A, "template": src,
+                    "script": "from checks import c17\n"
+                              f"src, res, rec, touched = c17.from_case({cfg!r}, {fid!r}, {A!r})\n"
+                              "print('template:', src)\nprint('result  :', res)\n"
+                              "print('recorded:', [type(v).__name__ for v in rec.values])\n"
+                              "# plain: SandboxedEnvironment(loader=DictLoader({'lib': c17.LIB_SOURCE})).from_string(src).render()\n",
+                })
+            if Fs:
+                p.count("nontrivial")
+            p.sig(("from", fid, A, res[1] if res[0] == "exc" else "ok"))
+            if fid == "alias" and A in ("__class__", "_body_stream"):
+                p.sample({"config": cfg, "route": "from-import-" + fid, "name": A, "template": src,
+                          "outcome": res[1] if res[0] == "exc" else "ok"}, cap=2)
+    return p
+
+
 # ------------------------------------------------------------------ structural grammar
 
 G_BASES = ["o", "o.a", "o.f()", "(o|first)", "loop", "o[0]", "(o.a, o.b)", "o.a[1:2]"]
@@ -814,6 +906,9 @@ G_STMTS = [
     "{% set v = @E %}{{ v.a }}",
     "{% set a, b = @E %}{{ a.x }}",
     "{% set ns = namespace() %}{% set ns.a = @E %}{{ ns.a.b }}",
+    "{% if @E %}{% set o.a = 1 %}{% endif %}{% set o.b = @E %}{% set o.c %}x{% endset %}",
+    "{% set ns = namespace() %}{% set ns.a = 1 %}{% set ns = @E %}{% set ns.a, ns.b = 1, @E %}",
+    '{% from @E import a as b, c %}{% from "lib" import lm as q with context %}{{ b.x }}{{ q() }}',
     "{% set v %}{{ @E }}{% endset %}{{ v }}",
     "{% set v | upper %}{{ @E }}{% endset %}",
     "{% with v = @E %}{{ v.a }}{% endwith %}",
@@ -898,7 +993,7 @@ def chunks(xs, n):
 
 def dispatch(arg):
     kind, payload = arg
-    return {"data": data_shard, "rt": rt_shard, "grammar": grammar_shard}[kind](payload)
+    return {"data": data_shard, "rt": rt_shard, "grammar": grammar_shard, "from": from_shard}[kind](payload)
 
 
 def run(ctx: core.Ctx):
@@ -922,11 +1017,12 @@ def run(ctx: core.Ctx):
     step = 600
     shards = [("data", (cfg, c)) for cfg in cfgs for c in chunks(rids, 4)]
     shards += [("rt", (cfg, c)) for cfg in cfgs for c in chunks(bids, 3)]
+    shards += [("from", (cfg, c)) for cfg in cfgs for c in chunks([f[0] for f in FROM_FORMS], 3)]
     shards += [("grammar", (asy, lo, lo + step)) for asy in (False, True) for lo in range(0, n, step)]
     ctx.pmap(dispatch, shards)
     ctx.cov["bounds"] = {
         "configs": cfgs, "data_routes": len(rids), "names": len(NAMES), "object_kinds": len(KINDS),
-        "runtime_bases": len(bids), "runtime_routes": len(RT_ROUTES), "grammar_programs_per_mode": n,
+        "from_import_forms": len(FROM_FORMS), "from_import_names": len(FROM_NAMES), "runtime_bases": len(bids), "runtime_routes": len(RT_ROUTES), "grammar_programs_per_mode": n,
     }
     unknown = {k: v for k, v in ctx.counters.items() if k.startswith("struct_unknown_name:")}
     if unknown:
